@@ -119,10 +119,14 @@ def main():
     model_jobs.append(("Maildir(1 deliverer, every byte lost)", "Maildir", maildir_cfg(sc.path("md1.cfg"), 1, ["a"], "DocProgs", 1, True), None, None))
     model_jobs.append(("Maildir(2 deliverers, colliding names)", "Maildir", maildir_cfg(sc.path("md2.cfg"), 2, ["a", "b"], "DocProgs", 1, False), None, None))
     if thorough:
+        model_jobs.append(("Maildir(1 deliverer, two failing calls)", "Maildir", maildir_cfg(sc.path("md1f2.cfg"), 1, ["a"], "DocProgs", 2, True), None, None))
+        model_jobs.append(("Mbox(3 deliverers, two failing calls)", "Mbox", mbox_cfg(sc.path("mb3f2.cfg"), 3, "Msgs2", "AllSenders", "AllBefores", True, faults=2), None, None))
+        model_jobs.append(("Mbox(1 deliverer, 5-byte buffer)", "Mbox", mbox_cfg(sc.path("mb1c5.cfg"), 1, "Msgs2", "AllSenders", "BeforesQ", False, bufcap=5), None, None))
         model_jobs.append(("Maildir(3 deliverers, colliding names)", "Maildir", maildir_cfg(sc.path("md3.cfg"), 3, ["a", "b"], "DocProgs", 1, False, msgs="TinyMsgs"), None, None))
     for i in range(1, 6):
         model_jobs.append(("Maildir(Mutant%d)" % i, "Maildir", maildir_cfg(sc.path("mdm%d.cfg" % i), 1, ["a"], "Mutant%d" % i, 1, True),
                            "NewIsComplete" if i < 5 else "SuccessIffNew", None))
+    model_jobs.append(("Maildir(Mutant6)", "Maildir", maildir_cfg(sc.path("mdm6.cfg"), 2, ["a"], "Mutant6", 1, False, msgs="TinyMsgs"), "NewStable", None))
     model_jobs.append(("Mbox(1 deliverer, <=%d lines)" % (4 if thorough else 3), "Mbox",
                        mbox_cfg(sc.path("mb1.cfg"), 1, "Msgs4" if thorough else "Msgs3", "SendersQ", "BeforesQ", False), None, None))
     model_jobs.append(("Mbox(1 deliverer, every sender and previous content)", "Mbox",
@@ -136,7 +140,7 @@ def main():
 
     def run_model(job):
         name, module, cfg, expect, env = job
-        big = expect is None and ("<=" in name or "2 deliverers" in name or "3 deliverers" in name)
+        big = expect is None and ("<=" in name or "deliverers" in name or "every sender" in name)
         res = tlc(module, cfg, env=env, workers=(8 if big else 2), timeout=1500, heap=("4g" if big else "1g"),
                   metadir=sc.path("meta-" + re.sub(r"\W+", "_", name)))
         return job, res
@@ -313,17 +317,17 @@ def main():
             m = random_message(rng, n)
             jobs.append(J("md", m, SENDERS[i % 4]))
             jobs.append(J("mb", m, SENDERS[i % 4], before=B(BEFORES[i % 2])))
-        for i in range(600 if thorough else 150):
+        for i in range(1500 if thorough else 250):
             m = random_message(rng)
             jobs.append(J("md", m, rng.choice(SENDERS), rng.choice(RCPTS)))
             jobs.append(J("mb", m, rng.choice(SENDERS), rng.choice(RCPTS), before=B(rng.choice(BEFORES))))
         # ---- concurrent maildir deliveries (un-gated)
-        for i in range(60 if thorough else 25):
+        for i in range(150 if thorough else 25):
             k = 2 + i % 2
             jobs.append({"mode": "mdgrp", "dels": [{"msg": B(b"msg %d of group %d\n" % (j, i) + random_message(rng, rng.choice([0, 30, 1500]))), "sender": B(SENDERS[(i + j) % 4]),
                                                    "local": B(b"u"), "domain": B(b"test.example")} for j in range(k)]})
         # ---- concurrent mbox deliveries under controlled interleaving
-        for i in range(240 if thorough else 80):
+        for i in range(600 if thorough else 120):
             k = 2 if i % 3 else 3
             dels = []
             for j in range(k):
@@ -337,14 +341,17 @@ def main():
         results += sessions.pmap(run_job, jobs)
 
     # ------------------------------------------------------------------ direction 3: the lifted call order
-    lifted_res = None
+    lifted_res = []
     if lifted:
         progfile = sc.path("progs.ndjson")
         write_ndjson(progfile, [{"prog": list(p)} for p in sorted(lifted)])
-        lifted_res = tlc("Maildir", maildir_cfg(sc.path("mdl.cfg"), 1, ["a"], "LiftedProgs", 1, True), env={"PROGS": progfile}, workers=4,
-                         timeout=900, heap="2g", metadir=sc.path("meta-lifted"))
-        need_ok(lifted_res, "Maildir with lifted call orders")
-        ck.add_tlc("Maildir(call orders lifted from %d clean runs: %s)" % (len(lifted), "; ".join(",".join(p) for p in sorted(lifted))), lifted_res)
+        orders = "; ".join(",".join(p) for p in sorted(lifted))
+        for nm, cfg in (("1 deliverer, every byte lost", maildir_cfg(sc.path("mdl1.cfg"), 1, ["a"], "LiftedProgs", 1, True)),
+                        ("2 deliverers, one name", maildir_cfg(sc.path("mdl2.cfg"), 2, ["a"], "LiftedProgs", 1, False, msgs="TinyMsgs"))):
+            res = need_ok(tlc("Maildir", cfg, env={"PROGS": progfile}, workers=4, timeout=900, heap="2g", metadir=sc.path("meta-lifted")),
+                          "Maildir with lifted call orders")
+            ck.add_tlc("Maildir(call orders lifted from clean runs of the real writer: %s; %s)" % (orders, nm), res)
+            lifted_res.append(res)
         ck.cov["lifted_call_orders"] = [list(p) for p in sorted(lifted)]
 
     # ------------------------------------------------------------------ verdict by TLC
@@ -428,12 +435,14 @@ def main():
                 return
         ck.violation(key, desc, case)
 
-    if lifted_res is not None and lifted_res.violated:
-        m = re.findall(r"prog = (<<[^>]*>>)", lifted_res.out)
-        prog = re.sub(r'[" ]', "", m[-1]) if m else "?"
-        report("Lifted:%s:order=%s" % (lifted_res.violated[0], prog),
-               "the order of file-system calls of a clean run of the real maildir writer, explored by TLC with kill / crash / loss at every point, violates %s" % lifted_res.violated[0],
-               None)
+    for res in lifted_res:
+        if res.violated:
+            m = re.findall(r"prog = (<<[^>]*>>)", res.out)
+            prog = re.sub(r'[" ]', "", m[-1]) if m else "?"
+            report("Lifted:%s:order=%s" % (res.violated[0], prog),
+                   "the order of file-system calls of a clean run of the real maildir writer, explored by TLC with kill / crash / loss / "
+                   "one failing call at every point, violates %s" % res.violated[0], None)
+            break
     best = {}
     for why, (job, rec, info) in bad_all:
         cls = why + ":" + job["mode"]
